@@ -13,6 +13,7 @@ func genPoolHistory(r *rand.Rand, p Profile) *History {
 	h.Opts.Defer = g.coin(p.PDefer)
 	h.Opts.Recover = g.coin(p.PRecover)
 	h.Opts.RandSeed = r.Int63n(1 << 30)
+	h.Opts.OptOrder = r.Int63n(1 << 30)
 	g.nScopes = 1
 	if p.MaxScopes > 1 && g.coin(0.6) {
 		g.nScopes = 1 + g.r.Intn(p.MaxScopes)
